@@ -5,6 +5,7 @@
     sstore <sid> key=<n|none> crypto=<s> user=<s> auth=<0|1> exp=<never|n> lease=<n>
     sresume <sid> want=<0|1>         -> reply=<none|sidNotFound|authorized> [user= auth= enc=]
     sexpire <sid> | srenew <sid> | sinvalidate <sid> | sgc | tick <n>
+    ostore <sid> ... | oinvalidate <sid> | oexpire <sid>     (the server's own isolated cache; `sresume` consults it first)
     chs tag=<s> addr=<s> cmd=<s> answer=<authorized|sidNotFound|broken|other> full=<sid>:<key>:<user>:<auth>:<cmd,cmd>
     cexpire <sid> | cinvalidate <sid> | cgc
     clookup tag=<s> addr=<s> cmd=<s>
@@ -17,6 +18,7 @@ open Cedar Cedar.SC Oracle
 
 structure St where
   s : Cache := {}
+  o : Cache := {}     -- the server's own (isolated) cache; empty unless `ostore` is used
   c : Cache := {}
   now : Nat := 1000
   nonce : Nat := 1
@@ -50,14 +52,24 @@ def step (st : St) (toks : List String) : St × String :=
   | "sresume" :: sid :: _ =>
     match g "want" with
     | some w =>
-      let (c', reply, out) := serverResume st.s st.now (chars sid) (w == "1") st.nonce
+      let (o', c', reply, out) := serverResume2 st.o st.s st.now (chars sid) (w == "1") st.nonce
       let rs := match reply with
         | .none => "none" | .sidNotFound => "sidNotFound" | .authorized _ => "authorized"
       let os := match out with
         | some o => s!" user={if o.user == "" then "~" else o.user} auth={b01 o.authenticated} enc={b01 o.encrypted}"
         | none => " refused"
-      ({ st with s := c', nonce := st.nonce + 1 }, s!"ok reply={rs}{os}")
+      ({ st with s := c', o := o', nonce := st.nonce + 1 }, s!"ok reply={rs}{os}")
     | none => (st, "bad-op")
+  | "ostore" :: sid :: _ =>
+    match g "key", g "crypto", g "user", g "auth", g "exp", g "lease" with
+    | some k, some cr, some u, some a, some ex, some le =>
+      let e : Entry := { id := chars sid, addr := [], key := if k == "none" then none else k.toNat?, crypto := str cr,
+                         user := str u, authenticated := a == "1", validCommands := [],
+                         expiration := if ex == "never" then none else ex.toNat?, lease := le.toNat?.getD 0, tag := [] }
+      ({ st with o := st.o.store e }, "ok")
+    | _, _, _, _, _, _ => (st, "bad-op")
+  | ["oinvalidate", sid] => ({ st with o := st.o.invalidate (chars sid) }, "ok")
+  | ["oexpire", sid] => ({ st with o := setExp st.o (chars sid) (some 0) }, "ok")
   | ["sexpire", sid] => ({ st with s := setExp st.s (chars sid) (some 0) }, "ok")
   | ["srenew", sid] =>
     match st.s.get (chars sid) with
